@@ -199,7 +199,8 @@ def rule_R4(ctx, f):
             for c in bd.calls_to("HashMap::get"):
                 si = bd.switch_info(c.target) if c.target is not None else None
                 if si and si[0][0] == "discr":
-                    none_t = [t for v, t in si[1] if v == 0]
+                    # the None arm: listed, or the `otherwise` of a switch that lists only Some (`let Some(v) = .. else { .. }`)
+                    none_t = [t for v, t in si[1] if v == 0] or ([si[2]] if si[2] is not None and [v for v, t in si[1]] == [1] else [])
                     if none_t:
                         n += 1
                         ctx.ob(rid, m + "|missing-name-rejects", rejecting(bd, none_t[0]), "a missing label name must lead to Err", site=c.span)
